@@ -57,7 +57,8 @@ func Run(c *vl.Ctx) {
 	cases := append(c01.Bases(quick), c01.Small(quick)...)
 	// operation sequences over one shared state, without the constructs the wasm back end rejects
 	// (closures, results); quick: single operations and pairs, thorough: triples as well
-	cases = append(cases, c01.SeqWithout(quick, "closure", "catch", "catch-neg", "x=par(x)")...)
+	// (pairs in both tiers: every wasm program costs two process starts; the triples are C01's)
+	cases = append(cases, c01.SeqWithout(true, "closure", "catch", "catch-neg", "x=par(x)")...)
 	if f := os.Getenv("VERIF_FILTER"); f != "" {
 		var l []*prog.Case
 		for _, k := range cases {
